@@ -499,12 +499,79 @@ def gen_helpers(rng):
     return sc.text()
 
 
+def gen_foreign(rng):
+    """FOREIGN submitters: helper threads made by the owner (iv_thread_create: neither the owner nor a thread of the pool --
+    for the one pool of the model what a worker of another pool of the same owner is) call
+    iv_work_pool_submit_continuation on the pool (called_from_owner_thread = 0: an idle thread is kicked, else with
+    started < max the owner's thread_needed event is posted).  Each helper submits fresh items (each item once), at moments
+    when the pool has no thread yet, all threads are busy (long work functions submitted by the owner), threads are idle
+    (helper created by an owner timer after 1 ns .. 5 s) or have exited after the 10 s idle timeout (owner timer at
+    11 .. 30 s).  No iv_work_pool_put in these scenarios (API contract: no put before / concurrent with a foreign
+    submission, nor while foreign-submitted work is queued and the pool has no thread)."""
+    m = rng.choice([1, 1, 2, 2, 3])
+    sc = Scen(rng, m)
+    nh = rng.randint(1, 3)
+    mode = rng.choice(["nothread", "busy", "idle", "timeout", "mixed", "mixed"])
+    own_items = []
+    if mode != "nothread" or rng.random() < 0.3:
+        # the owner's own work: long (yielding) work functions keep every thread busy
+        for _ in range(rng.randint(1, m + 1) if mode in ("busy", "mixed") else rng.randint(1, 2)):
+            i = sc.item()
+            own_items.append(i)
+            if mode in ("busy", "mixed") or rng.random() < 0.3:
+                sc.add(("w", i), ["y"] * rng.randint(2, 6))
+
+    def helper_script():
+        acts = ["y"] * rng.randint(0, 3)
+        for _ in range(rng.randint(1, 2)):
+            j = sc.item()
+            if j is None:
+                break
+            acts.append("wS0.0.%d" % j)
+            if rng.random() < 0.3:
+                sc.add(("w", j), ["y"] * rng.randint(1, 3))
+            acts += ["y"] * rng.randint(0, 2)
+        acts += rng.choice(["", "", "y", "hx"]).split()
+        return " ".join(acts)
+
+    early = []                      # set-up actions, shuffled: submissions of the owner, helper creations, yields
+    for i in own_items:
+        early.append("ws0.%d" % i)
+    for k in range(nh):
+        how = mode if mode != "mixed" else rng.choice(["nothread", "busy", "idle", "timeout"])
+        if how in ("nothread", "busy") or not sc.free_timers:
+            if not sc.free_helpers:
+                break
+            n = sc.free_helpers.pop()
+            early.append("tc%d" % n)
+            sc.add(("h", n), helper_script().split())
+        else:
+            d = rng.choice([1, 1000, S, 5 * S]) if how == "idle" else rng.choice([10 * S, 10 * S + 1, 11 * S, 15 * S, 20 * S, 30 * S])
+            j = sc.free_timers[-1]
+            if sc.timer(d, ["y"] if rng.random() < 0.5 else []):
+                sc.helper(helper_script(), ("t", j))
+    if mode == "nothread":
+        early = [a for a in early if a.startswith("tc")] + [a for a in early if not a.startswith("tc")]
+    elif mode == "busy":
+        early = [a for a in early if not a.startswith("tc")] + [a for a in early if a.startswith("tc")]
+    else:
+        rng.shuffle(early)
+    for a in early:
+        sc.setup.append(a)
+        if rng.random() < 0.5:
+            sc.setup += ["y"] * rng.randint(1, 3)
+    sc.m = 160
+    sc.sched = schedule(rng, m + nh + 1, rng.choice([0, 40, 120, 300, 500]), rng.choice(STYLES + ["uniform"]))
+    return sc.text()
+
+
 # ---------------------------------------------------------------------------------------------------------
 def log_features(log):
     """what happened in a log, for the non-triviality rules and the distribution report"""
     f = {"workers": 0, "switch_in_cs": False, "cont": False, "idle_exit": False, "rearm": False, "kick_idle": False,
          "put": False, "stop_after_put": False, "put_starting": False, "helper_te": False, "helper_init": False,
-         "helpers": 0, "local": False, "self_kick": False, "needed": False, "end": ""}
+         "helpers": 0, "local": False, "self_kick": False, "needed": False, "foreign": False, "foreign_needed": False,
+         "foreign_kick": False, "end": ""}
     if not log:
         return f
     segs = []
@@ -523,6 +590,7 @@ def log_features(log):
     started = set()
     hooked = set()
     put_seen = False
+    helper_thr = set()       # threads running a helper body (logged Ch): foreign submitters when they submit
     for t, x in segs:
         if holder is not None and t != holder:
             f["switch_in_cs"] = True
@@ -530,6 +598,8 @@ def log_features(log):
             inact[t] = x
             if x.startswith("a wS"):
                 f["cont"] = True
+                if t in helper_thr:
+                    f["foreign"] = True
             if x.startswith("a wp"):
                 f["put"] = True
                 put_seen = True
@@ -553,10 +623,14 @@ def log_features(log):
             holder = None
         elif x.startswith("Kk ") and t in inact and not x.endswith(" 1000"):
             f["kick_idle"] = True
+            if t in helper_thr:
+                f["foreign_kick"] = True
         elif x.startswith("L x") and holder == t and t != 0 and t in hooked and t not in inact:
             f["self_kick"] = True
         elif x.startswith("L e") and holder == t and t in inact and t != 0:
             f["needed"] = True
+            if t in helper_thr:
+                f["foreign_needed"] = True
         elif x.startswith("Cw") and t != 0:
             work_threads.add(t)
         elif x.startswith("Cs"):
@@ -567,6 +641,7 @@ def log_features(log):
             started.add(int(x[3:]))
         elif x.startswith("Ch"):
             f["helpers"] += 1
+            helper_thr.add(t)
         elif x == "Te":
             f["helper_te"] = True
         elif x == "a hi":
@@ -620,14 +695,23 @@ class _WorkCheck(MTCheck):
         "C13 = hooks paired per thread, finish only with paired hooks, join after finish, MainEnd only with everything joined and "
         "completed, no QUIESCENT after put, D only after MainEnd; theorems C12_monitor_accepts / C13_hooks_paired: every sequence "
         "accepted by the model passes them",
-        "one pool per scenario in the model (C12 adds an implementation-only search stage with two pools of one owner, see below), owner loop + pool threads + helper threads created by the owner; virtual time is not in the model: the "
+        "one pool per scenario in the model (C12 adds an implementation-only search stage with two pools of one owner, see below), owner loop + pool threads + helper threads created by the owner; a running helper thread may submit to the pool as a FOREIGN "
+        "submitter (iv_work_pool_submit_continuation by a thread that is neither the owner nor a thread of this pool -- what a worker of "
+        "another pool of the same owner is for this pool); virtual time is not in the model: the "
         "idle timer may fire whenever the worker is on the idle list (covers every expiry time)",
         "baton scheduler mt.c / virtual kernel vk.c as for C08: sequentially consistent interleavings, switches at the yield points only",
     ]
     assumptions = [
         "API contract (scenario generator, and guards of `step`): work items are submitted only while not in flight; no submission after "
-        "iv_work_pool_put and no put concurrent with a continuation submission; threads are created and pools used from the owner only; "
-        "handlers and work functions return; thread_start / thread_stop hooks are set",
+        "iv_work_pool_put and no put concurrent with a continuation submission; threads are created and pools put / plainly submitted to from "
+        "the owner only; continuations are submitted by pool threads from inside a work function or by FOREIGN submitters (a running thread "
+        "that is neither the owner nor a thread of the pool); handlers and work functions return; thread_start / thread_stop hooks are set",
+        "API contract for FOREIGN submitters (guards of `step`: cs_submit_g, the put branch of st_lock, the destructor branch of st_evo): the pool "
+        "has not been put when the foreign submission takes the pool lock (no put before or concurrent with it); iv_work_pool_put is not "
+        "called while work is queued and the pool has no thread (started_threads = 0: only a foreign submission whose thread_needed event "
+        "the owner has not yet served leaves the pool in that state; iv_work_pool_put / iv_work_event test started_threads and work_done "
+        "only and would free the pool with the item still queued -- reported as a finding, not explored by the generator: no put in the "
+        "foreign scenarios); a thread does not exit inside a submit call",
         "partial: thread-creation failure and allocation failure are not modelled; fewer than 2^31 items queued at once; several pools on "
         "one loop are independent instances sharing only the owner's event list (not explored); no iv_quit; the harness does not "
         "distinguish a local (NULL pool) work function that runs inside the submit call from one that runs from the task right after it",
@@ -735,15 +819,22 @@ class C12(_WorkCheck):
             "fills the pool, with many long (yielding) work functions under long uniform schedules so that max_threads of them overlap; "
             "(c) idle-timer races (submissions and puts exactly at the "
             "idle expiry); (d) NULL-pool items mixed with pool items, submitted from set-up, local work functions, completions, timers; "
+            "(e) FOREIGN submitters: 1-3 helper threads made by the owner (set-up, or an owner timer at 1 ns .. 5 s / 10 .. 30 s) each call "
+            "iv_work_pool_submit_continuation for 1-2 fresh items, max_threads 1-3, when the pool has no thread yet / every thread is busy / "
+            "threads are idle / threads have exited after the 10 s idle timeout, no put; "
             "schedules Z: random, bursty, ping-pong, owner first (threads still starting when more work arrives), workers first.  "
             "non-trivial = another thread ran while some thread held the pool lock, or >= 2 pool threads ran work functions, or an idle "
-            "timer fired (exit or re-arm), or a continuation / self-kick / thread_needed post happened; distinct = distinct scenario text")
+            "timer fired (exit or re-arm), or a continuation / self-kick / thread_needed post happened, or a foreign submission (a helper "
+            "thread submitted to the pool) happened; distinct = distinct scenario text")
     FIXED = [
         "Bet;M40;Z0101210;L0:wc0=2 ws0.0 ws0.1 ws0.2;H0c2:wp0",
         "Bet;M40;Z0101210;L0:wc0=2 ws0.0 ws0.1;H0w0:wS0.0.2",
         "Bet;M40;L0:wl3 wl4 tc1;H0h1:y",
         "Bet;M60;L0:wc0=1 ws0.0 ws0.1 ws0.2 ws0.3 tr0+10000000000;H0t0:ws0.4 ws0.5",
         "Bet;M60;Z000000000011111111112222222222;L0:wc0=2 ws0.0 tr0+10000000000 tr1+10000000000;H0t0:ws0.1;H0t1:ws0.2",
+        "Bet;M60;L0:wc0=1 tc1 y y;H0h1:wS0.0.3",
+        "Bet;M60;Z0000001111111100000000222222;L0:wc0=1 ws0.0 tc1 tr0+1;H0t0:y y y;H0h1:y y y y y y y y wS0.0.1",
+        "Bet;M80;L0:wc0=2 ws0.0 tr0+15000000000;H0t0:tc1;H0h1:y wS0.0.1 wS0.0.2 hx",
     ]
 
     # way (a) of the tie for the sequence-number arithmetic: the loop test / drained test / increments of iv_work.c are
@@ -775,11 +866,13 @@ class C12(_WorkCheck):
     def mix(self, ctx):
         q = ctx.tier == "quick"
         return [(gen_burst, 230 if q else 12000), (gen_cont, 110 if q else 6000), (gen_needed, 120 if q else 6000),
-                (gen_idle_race, 140 if q else 8000), (gen_local, 80 if q else 4000), (gen_put_at, 40 if q else 2000)]
+                (gen_idle_race, 140 if q else 8000), (gen_local, 80 if q else 4000), (gen_put_at, 40 if q else 2000),
+                (gen_foreign, 100 if q else 5000)]
 
     def nontrivial(self, case, log):
         f = log_features(log)
-        return bool(f["switch_in_cs"] or f["workers"] >= 2 or f["idle_exit"] or f["cont"] or f["self_kick"] or f["needed"])
+        return bool(f["switch_in_cs"] or f["workers"] >= 2 or f["idle_exit"] or f["cont"] or f["self_kick"] or f["needed"]
+                    or f["foreign"])
 
     # ---- search stage beyond the model: two pools of one owner (implementation only, judged by two_pool_log_check) ----
     def cases(self, ctx):
@@ -824,10 +917,27 @@ class C12(_WorkCheck):
                     st["nontrivial"] += 1
         for key in ("div", "crashes", "monfail"):
             st[key].sort(key=lambda x: x[0])
+        # measured: one-pool logs in which a helper thread submitted to the pool (foreign submitter), and how it was served
+        fs = {"logs_with_foreign_submission": 0, "foreign_thread_needed_posts": 0, "foreign_kicks_of_idle_thread": 0,
+              "foreign_logs_accepted_by_model": 0}
+        for i in one:
+            io = st["ires"][i][0]
+            if not io or " wS" not in io:
+                continue
+            f = log_features(io)
+            if f["foreign"]:
+                fs["logs_with_foreign_submission"] += 1
+                fs["foreign_thread_needed_posts"] += int(f["foreign_needed"])
+                fs["foreign_kicks_of_idle_thread"] += int(f["foreign_kick"])
+                fs["foreign_logs_accepted_by_model"] += int(str(st["mon"][i]).startswith("OK"))
+        if len(cases) > 1 or not hasattr(self, "foreign_stats"):
+            self.foreign_stats = fs
         return st
 
     def distribution(self, cases):
         d = _WorkCheck.distribution(self, [c for c in cases if not c.startswith("2POOL ")])
+        d["cases_with_foreign_submitter_script"] = sum(1 for c in cases if not c.startswith("2POOL ") and re.search(r";H0h\d+:[^;]*wS", c))
+        d.update(getattr(self, "foreign_stats", {}))
         d["two_pool_search_cases_implementation_only"] = sum(1 for c in cases if c.startswith("2POOL "))
         return d
 
